@@ -12,10 +12,12 @@ def main():
     # translators
     try:
         import gen_all
-        gen_all.generate_all(vlib.REPO)
+        for p in gen_all.generate_all(vlib.REPO):
+            print("setup: translator problem (reported by the owning check): %s" % p)
     except Exception as e:
         print("setup: translator problem (reported by the checks): %s" % e)
     # Coq: everything
+    os.makedirs(os.path.join(vlib.OCAML, "gen"), exist_ok=True)
     vlib.coq_project()
     files = vlib.coq_files()
     ok, log = vlib.coq_make([f + "o" for f in files], timeout=7200)
